@@ -13,7 +13,9 @@
 //	(3) frozen registries: a reflection walk over everything reachable from
 //	    the regime / addon / catalogue / currency / schema registries including
 //	    the hidden len..cap region of every slice, before and after;
-//	(4) the same workload under the race detector (cmd/racework built -race).
+//	(4) the same workload under the race detector (cmd/racework built -race);
+//	(5)-(7) the command line operations and the bulk dispatcher called in-process
+//	    through the verifhook package: see hook.go.
 package c15
 
 import (
@@ -55,6 +57,8 @@ type rcase struct {
 	Slow      bool   `json:"slow,omitempty"`
 	KeepAlive bool   `json:"keep_alive,omitempty"`
 	Detail    any    `json:"detail,omitempty"`
+	// the in-process phases (hook.go): kind hookbulk | hookcancel, or race with the -hook workload
+	Hook json.RawMessage `json:"hook,omitempty"`
 }
 
 func env() []string {
@@ -118,9 +122,12 @@ func Run(c *core.Ctx) int {
 
 	frozenAndEquivalence(c, docs, before)
 	raceRuns(c, race)
+	hk := startHookRace(c, race) // (7) in the background while (5), (6) and (1) run
+	hookInProcess(c, inputs, outputs)
 	bulkTraces(c, gobl, inputs, outputs)
+	hk.finish(c)
 
-	return c.Finish("one evaluation = one document pipeline compared sequential vs concurrent, one registry snapshot comparison, one race-detector run, or one bulk response stream judged by the Lean acceptor; non-trivial = document whose pipeline reaches validation / stream with >= 2 requests answered out of order or with an error tail",
+	return c.Finish("one evaluation = one document pipeline compared sequential vs concurrent, one registry snapshot comparison, one race-detector run, one bulk response stream (POST /bulk or in-process) judged by the Lean acceptor, or one uncancelled operation compared with its sequential result while others are cancelled; non-trivial = document whose pipeline reaches validation / stream with >= 2 requests answered out of order or with an error tail",
 		map[string]any{"registry_leaves": len(before.Lines), "registry_slices": before.Slices, "registry_slices_with_spare_capacity": before.Spare})
 }
 
@@ -1137,6 +1144,10 @@ func seqOrder(obs []obsResp) []int64 {
 /* ---------- replay ---------- */
 
 func replay(c *core.Ctx, rc rcase, gobl, race string, before *conc.Snapshot) {
+	if len(rc.Hook) > 0 {
+		replayHook(c, rc, race)
+		return
+	}
 	switch rc.Kind {
 	case "equiv":
 		d := conc.Doc{Name: rc.Name, Data: []byte(rc.Data)}
